@@ -159,8 +159,11 @@ HandleProposal(s, p, avail) ==
   THEN Emit(s, [k |-> "err", e |-> "WrongLeader"])
   ELSE LET s1 == ProcessQC(s, Par(b))
            s2 == IF p.tc # NoTC THEN AdvanceRound(s1, p.tc.round) ELSE s1
+           \* attack model "qc_after_payload": the certificates of a proposal whose payload is missing are not processed
+           \* (neither now nor when the block is looped back, since the loop-back path goes straight to process_block)
+           sw == IF "qc_after_payload" \in Weaken THEN s ELSE s2
        IN IF ~avail THEN \* the payload waiter keeps one entry per block digest (consensus/src/mempool.rs: pending.contains_key)
-                         Emit([s2 EXCEPT !.pwait = IF \E q \in @ : q.blk = b THEN @ ELSE @ \cup {p}], [k |-> "paywait", blk |-> b])
+                         Emit([sw EXCEPT !.pwait = IF \E q \in @ : q.blk = b THEN @ ELSE @ \cup {p}], [k |-> "paywait", blk |-> b])
           ELSE ProcessBlock(s2, p)
 
 (* handle_timeout: core.rs:227.  t = [round, author, hq] *)
